@@ -338,7 +338,7 @@ def fw_update(draw, pic, max_len=200):
     ))
     ftype, fver = draw(st.integers(0, 2)), draw(st.integers(0, 2))
     if draw(st.integers(0, 11)) == 0:
-        return {"op": "fw", "nids": nids, "type": ftype, "ver": draw(st.integers(3, 9)), "image": None, "bad_path": draw(st.sampled_from(["missing", "garbage"]))}
+        return {"op": "fw", "nids": nids, "type": ftype, "ver": draw(st.integers(3, 9)), "image": None, "bad_path": draw(st.sampled_from(["missing", "garbage", "empty", "eof_only"]))}
     if pic.fw and draw(st.integers(0, 9)) < 5:
         ftype, fver = draw(st.sampled_from(pic.fw))  # re-issue an update for firmware already stored
     image = None
@@ -382,8 +382,10 @@ def histories(draw, versions=T.VERSIONS, max_ops=30, invalid=True, controller=Tr
             if wake is not None and draw(st.booleans()):
                 ops.append({"op": "line", "text": frame((nid, 255, T.INTERNAL, 0, wake, "5"))})
     weights = dict(valid=62, near=10 if invalid else 0, raw=6 if invalid else 0, set=12 if controller else 0,
-                   fw=4 if ota else 0, metric=2, cb_raise=2 if cb_raise else 0, clock=2, wild=0, save=0, desire=3 if controller else 0, race=0, confirm=2 if controller else 0, otaflow=2 if ota else 0)
+                   fw=4 if ota else 0, metric=2, cb_raise=2 if cb_raise else 0, clock=2, wild=0, save=0, desire=3 if controller else 0, race=0, confirm=2 if controller else 0, otaflow=2 if ota else 0, burst=3, restart=0)
     weights.update(op_weights or {})
+    if weights.get("save") and "restart" not in (op_weights or {}):
+        weights["restart"] = 2  # histories on a gateway with a persistence file also span clean restarts
     table = [k for k, w in weights.items() for _ in range(w)]
     for _ in range(n_ops):
         roll = draw(st.sampled_from(table))
@@ -467,8 +469,25 @@ def histories(draw, versions=T.VERSIONS, max_ops=30, invalid=True, controller=Tr
                 ops.append({"op": "line", "text": wline})
                 ops.append({"op": "set", "n": nid, "c": cid, "vt": 24, "value": "r2"})
                 ops.append({"op": "race_set", "n": nid, "c": cid, "vt": draw(st.sampled_from([25, 26, 0, 24])), "value": "r3", "at": draw(st.integers(0, 2)), "then": wline})
+        elif roll == "burst":
+            # several lines in one read: all are queued before the first queued job runs
+            kinds = ["set", "set", "req", "battery", "sketch", "child", "node", "config", "time", "log"]
+            frames = []
+            strangers = [n for n in NODE_POOL if n not in pic.nodes and 0 < n < 255]
+            if len(strangers) >= 2 and draw(st.booleans()):
+                # traffic from two nodes the gateway does not know (>= 2.0: one presentation request each)
+                for nid in draw(st.permutations(strangers))[:2]:
+                    vt = draw(st.sampled_from([0, 2, 24]))
+                    frames.append((nid, draw(st.sampled_from(CHILD_POOL)), T.SET, 0, vt, draw(conforming(T.payload_rule(version, T.SET, vt)))))
+            for _ in range(draw(st.integers(0 if frames else 2, 3))):
+                frames.append(draw(valid_frame(pic, kinds)))
+            ops.append({"op": "burst", "texts": [frame(f) for f in frames]})
         elif roll == "save":
             ops.append({"op": "save"})
+        elif roll == "restart":
+            ops.append({"op": "restart"})
+            pic.fw, pic.images = [], {}
+            pic.desired = {}
         elif roll == "metric":
             ops.append({"op": "metric", "value": draw(st.booleans())})
         elif roll == "cb_raise":
